@@ -148,6 +148,7 @@ inline void run_docsig(long &kc) {
 			// ---- tamper: signature packet
 			{ Layout LS = walk(a.pkt);
 			  sweep(kind, "sig", a.pkt, LS, sig_judged, p.sem, [&](const Oct &t) { Acc A; SigRes q = lib_check(t, K->key, T, K->ctime); A.accepted = q.parsed && q.crypto; A.sem = q.sem; return A; }, r, cj, st); }
+			unhashed_injection(kind, a.pkt, K->key, T, K->ctime, sigtime, p.sem, cj, st);
 			// ---- tamper: key packet (document signatures do not sign the key packet: only key material is judged)
 			{ Layout LK = walk(K->pub); std::string ksem;
 			  { TMCG_OpenPGP_Pubkey *pub = parse_pub(K->pub); if (pub) { ksem = sexp2str(pub->key); delete pub; } }
